@@ -10,7 +10,7 @@ from vlib.harness import prop, sub
 
 prop("C20",
      rule="Enumerated: every key of spectrum.window.window_names (29) x every N in 1..512 with default parameters "
-          "(one shard per name), once per clause group (shape / taper / closed form / Window object) and every "
+          "(14 848 windows), once per clause group (shape / taper / closed form / Window object) and every "
           "documented alias pair x N in 1..512.  Hypothesis: all names x N in 513..16384 (default parameters); the ten "
           "parameterised windows x N in 1..16384 x Kaiser beta [0,20], Gaussian/Poisson/Cauchy/Poisson-Hanning alpha "
           "(0,6], Blackman alpha [0,0.5], Tukey r [0,1] incl. end points, Chebyshev attenuation [45,120], flat-top "
@@ -260,8 +260,8 @@ def check_object(ctx, w, name, N, kw=None):
 # enumerated sub-checks: all names x N = 1..512, default parameters
 # --------------------------------------------------------------------------
 def enum_default(tier):
-    # N-major with the names innermost: with one shard per name (i % 29) every
-    # name is a shard of its own, so a defect of one window cannot hide another's
+    # failures are bucketed by their sig (name, parity, clause) and the
+    # enumeration continues past them, so one window cannot hide another
     for N in range(1, NMAX_ENUM + 1):
         for name in NAMES:
             yield {"name": name, "N": N}
@@ -285,7 +285,7 @@ def _finite_or_skip(ctx, w, name):
     return False
 
 
-@sub("C20.shape", enum=enum_default, exhaustive=True, shards_quick=len(NAMES), shards_thorough=len(NAMES),
+@sub("C20.shape", enum=enum_default, exhaustive=True, shards_quick=8, shards_thorough=16,
      doc="create_window(N, name) is a float ndarray of shape (N,) with only finite samples; all names x N=1..512")
 def c20_shape(ctx, case):
     name, N = case["name"], case["N"]
@@ -293,7 +293,7 @@ def c20_shape(ctx, case):
     check_shape(ctx, W.create_window(N, name), name, N)
 
 
-@sub("C20.taper", enum=enum_default, exhaustive=True, shards_quick=len(NAMES), shards_thorough=len(NAMES),
+@sub("C20.taper", enum=enum_default, exhaustive=True, shards_quick=8, shards_thorough=16,
      doc="w[n]==w[N-1-n] (1e-9), max<=1+1e-8, w[(N-1)/2]==1 for odd N>=3, ENBW>=1 and == N sum w^2/(sum w)^2 for N>=3; all names x N=1..512")
 def c20_taper(ctx, case):
     name, N = case["name"], case["N"]
@@ -304,7 +304,7 @@ def c20_taper(ctx, case):
     check_taper(ctx, w, name, N)
 
 
-@sub("C20.closed", enum=enum_default, exhaustive=True, shards_quick=len(NAMES), shards_thorough=len(NAMES),
+@sub("C20.closed", enum=enum_default, exhaustive=True, shards_quick=8, shards_thorough=16,
      doc="samples equal the closed-form definition (27 names; scipy reference design for chebwin/taylor), atol 1e-10; all names x N=1..512")
 def c20_closed(ctx, case):
     name, N = case["name"], case["N"]
@@ -317,7 +317,7 @@ def c20_closed(ctx, case):
     ctx.nontrivial(N >= 3 and ref is not None)
 
 
-@sub("C20.object", enum=enum_default, exhaustive=True, shards_quick=len(NAMES), shards_thorough=len(NAMES),
+@sub("C20.object", enum=enum_default, exhaustive=True, shards_quick=8, shards_thorough=16,
      doc="Window(N, name).data / .N / .enbw / .name equal create_window's samples, N, enbw(samples), name; all names x N=1..512")
 def c20_object(ctx, case):
     name, N = case["name"], case["N"]
